@@ -21,6 +21,12 @@ CHECKS = {
          "1- and 2-argument setters over undefined leaves at every reachable state; source text parsed line by line; structural-cycle orders are the recorded known finding"),
  "C20": ("exploration", "4", "the TLC-generated programs of Manager.tla executed under {compiled, pure Python} x PYTHONHASHSEED values; per-step transcripts (exception class, contents, dump() text) must be identical in every configuration, and each run must conform to the spec",
          "quick: 2 builds x 3 seeds; thorough: 2 x 16 seeds and hostile keys; expression-term corpus is covered by the Expr engine's own cross-configuration digests"),
+ "C04": ("model_checking", "5", "Expr.tla + PyVal.tla: TLC enumerates expression construction (all operators x operand orders x literal catalogue, builtins, calls, computed keys), assignment, the 13 in-place operators and operand changes; every transition replayed on real refs: structure, value by type, NaN / exception class vs the spec and vs CPython on the mirrored term",
+         "exact window: ints, bools, small dyadic floats (PyVal.tla, cross-checked against CPython on every enumerated case); complex / numpy operands and inexact results are decided by CPython on the mirrored term, the structure by the spec"),
+ "C05": ("model_checking", "5", "Expr.tla Locs: for every expression TLC builds (every node class x slot, refs directly or nested, bare container refs) _get_dependencies() must be a set projecting exactly onto Locs; model invariant Sensitive (a location whose change alters the value lies in Locs)",
+         "construction depth 1 full, depth 2 reduced, deeper by simulation"),
+ "C06": ("exploration", "5", "Paths.tla: all pairs of access paths of length <= 2 (3 thorough) over 9 abstract item keys x 3 attribute names x 2 labels under 4 hostile key tables: == / != / hash / dict lookup follow path identity; dictionary behaviours keyed by freshly built refs; then identical / different expression structures (Expr.tla)",
+         "collision behaviour of large families only as: n similar keys give n distinct retrievable entries (10^4 quick, 10^5 thorough per family)"),
  "C07": ("model_checking", "6", "TableIndex.tla (index column + lazily built cache) checked with TLC; every generated transition replayed on a real Table, lookups compared with the spec's Resolve",
          "3-name alphabet, 0..3 rows exhaustive (4 thorough), node identity includes last probed snapshot so lookup/update interleavings stay distinct"),
  "C08": ("model_checking", "6", "RowSel.tla: the selector semantics as pure TLA+ operators; TLC enumerates every (table, selector[, selector]) case with its expected rows and each case is executed on a real Table (rows / rows.rows / indices / mask) under several hash seeds",
